@@ -169,7 +169,20 @@ def judge(case):
     contextualize_report(code)
     sb = get_sandbox()
     try:
-        sb.run(inputs=list(inputs))
+        # the documented ways of handing over the same queue: list, tuple, one bare string, set_input() before run()
+        form = case.get('input_form', 'list')
+        if form == 'bare' and len(inputs) == 1:
+            classes.append('inputs-as-bare-string')
+            sb.run(inputs=inputs[0])
+        elif form == 'tuple':
+            sb.run(inputs=tuple(inputs))
+        elif form == 'set_input' and inputs:
+            sb.set_input(inputs[0])
+            for extra in inputs[1:]:
+                sb.set_input(extra, clear=False)
+            sb.run()
+        else:
+            sb.run(inputs=list(inputs))
     except Exception as e:
         MAIN_REPORT.full_clear()
         return Result([], True, ['run-raised(left to C04)'], ambiguous=1)
@@ -268,8 +281,8 @@ def judge(case):
 
 
 def cases(tier):
-    return st.builds(lambda p, q, calls: {'code': p['code'], 'inputs': q, 'calls': calls},
-                     CS1.cs1_program(), CS1.input_queue(), st.lists(CS1.call_spec(), max_size=3))
+    return st.builds(lambda p, q, calls, form: {'code': p['code'], 'inputs': q, 'calls': calls, 'input_form': form},
+                     CS1.cs1_program(), CS1.input_queue(), st.lists(CS1.call_spec(), max_size=3), st.sampled_from(['list', 'list', 'tuple', 'bare', 'set_input']))
 
 
 def call_cases(tier):
